@@ -4,7 +4,7 @@ META = dict(
     engine="E-KV",
     technique="Lean 4 proof over all block histories and all map-iteration oracles (permutation induction on the sorted-map construction; simulation between a multistore and the same multistore with its transient substores unmounted) + differential twin runs on the real rootmulti.Store",
     level_text="Kernel-checked: every commit reports version+1; the commit hash is independent of Go's map iteration order; the list of commit ids of any block history equals that of the multistore without transient substores fed only the persistent writes (so it is a function of the persistent history); transient substores are empty after every commit. Tie: real rootmulti.Store (IAVL + transient substores, MemDB); the Lean driver recomputes CommitInfo.Hash with its own SHA-256 from the persisted StoreInfos, replays the observed iteration order as oracle, and compares five twin runs per history.",
-    level_note="Trusted: Lean kernel; axioms propext/Quot.sound/Classical.choice at most; harness+driver parser. The IAVL root hash is a parameter TH (function of the substore's write history; that it is a function is monitored at run time, what the function is belongs to C03/C04). SHA-256 is a parameter H in the theorems. App-level observation points (ResponseCommit.Data, BeginBlock) are exercised by the E-CHAIN properties, here the multistore is driven directly.",
+    level_note="Trusted: Lean kernel; axioms propext/Quot.sound/Classical.choice at most; harness+driver parser. The IAVL root hash is a parameter TH (function of the substore's write history; that it is a function is monitored at run time, what the function is belongs to C03/C04). SHA-256 is a parameter H in the theorems. The app-level stream (c06app) drives a real PocketCoreApp through ABCI and evaluates the specification (transient substores empty before every BeginBlock, version+1, app hash independent of off-chain simulate/CheckTx traffic) on its observations.",
 )
 
 
@@ -29,6 +29,13 @@ def run(ctx):
     ctx.assume("all persistent substores are mounted before the first commit (as pocket-core's app does)")
     n = 400 if ctx.thorough else 25
     ctx.stream("twins", "c06", "Driver/C06.lean", n=n)
+    # application level: real PocketCoreApp through ABCI; simulate queries / CheckTx of transient-writing transactions
+    # between Commit and the next BeginBlock; transient substores read back before every BeginBlock; app hashes vs a twin
+    ctx.rule("c06app: real PocketCoreApp (ABCI, MemDB), generated blocks (<= 4 txs); after each Commit 0-3 off-chain actions: "
+             "Query app/simulate (2/3) or CheckTx (1/3) of gov parameter changes (3/5; their handler marks the transient params store), "
+             "sends, DAO transfers; every transient substore is read back before each BeginBlock; twin run without off-chain traffic")
+    for i in range(4 if ctx.thorough else 2):
+        ctx.stream(f"app-s{i}", "c06app", "Driver/C06app.lean", n=(60 if ctx.thorough else 16), seed=ctx.seed * 100 + i)
     if ctx.thorough:
         for s in range(2):
             ctx.stream(f"twins-s{s}", "c06", "Driver/C06.lean", n=300, seed=ctx.seed * 1000 + 31 + s)
